@@ -4,6 +4,7 @@
 import GriddleModel.Lemmas.Steps
 import GriddleModel.Props.C01
 import GriddleModel.Props.C04
+import GriddleModel.Lemmas.Small
 namespace Griddle.C10
 
 /-- `with_capacity(n)`: capacity ≥ n (or the documented overflow panic / OOM abort). -/
@@ -58,6 +59,20 @@ theorem shrink_contract (c : Cfg) (hR : 0 < c.R) (t : Raw) (m : Nat) (h : Inv c.
       (1 ≤ t.main.buckets → r.1.main.buckets ≤ t.main.buckets) ∧
       max r.1.len (min m t.capacity) ≤ r.1.capacity) :=
   (shrinkTo_spec c hR t m h hsmall).mono (fun _ hs => ⟨hs.1, hs.2.1, fun hb => (hs.2.2.1 hb).1, hs.2.2.2.1⟩)
+
+/-- the same without the size hypothesis: it follows from the two invariants -/
+theorem shrink_contract_unconditional (c : Cfg) (hR : 0 < c.R) (t : Raw) (m : Nat) (h : Inv c.R t) (hs : Small t) :
+    OkOrCap (Raw.shrinkTo c t m) (fun r =>
+      Inv c.R r.1 ∧ Small r.1 ∧ r.1.ents.Perm t.ents ∧
+      (1 ≤ t.main.buckets → r.1.main.buckets ≤ t.main.buckets) ∧
+      max r.1.len (min m t.capacity) ≤ r.1.capacity) := by
+  have hc := shrink_contract c hR t m h (small_len h hs)
+  cases hr : Raw.shrinkTo c t m with
+  | error f => rw [hr] at hc; exact hc
+  | ok r =>
+    rw [hr] at hc
+    simp only [OkOrCap] at hc ⊢
+    exact ⟨hc.1, shrinkTo_small hs hr, hc.2⟩
 
 /-- non-vacuity of `overflow_reported`: the historical failing input (14 parked/stored elements,
     `usize::MAX - 15`) -/
